@@ -31,7 +31,11 @@ if os.path.exists(patch):
         rc1, o1 = run("cargo test --offline --workspace 2>&1 | grep -E '^test result|FAILED|error' | head -5", cwd=scratch)
         rc2, o2 = run("cargo test --offline --features async,http 2>&1 | grep -E '^test result|FAILED|error' | head -5", cwd=scratch)
         meta["existing_tests_with_change"] = {"default": o1.strip().splitlines()[:2], "async_http": o2.strip().splitlines()[:2]}
-        meta["confirmed"] = "68 passed; 0 failed" in o1 and "82 passed; 0 failed" in o2
+        import re
+        def passed(o, least):   # the change may add tests of its own; none may fail
+            m = re.search(r"test result: ok\. (\d+) passed; 0 failed", o)
+            return bool(m) and int(m.group(1)) >= least and "FAILED" not in o
+        meta["confirmed"] = passed(o1, 68) and passed(o2, 82)
     finally:
         run("git -C /repo worktree remove --force %s" % scratch)
         shutil.rmtree(scratch, ignore_errors=True)
